@@ -1,7 +1,8 @@
 #!/bin/bash
 # usage: seedcheck.sh <dir with patch.diff demo_test.go meta.json> <demo test regex> <prop> [more props]
-# 1. confirms in a scratch worktree: demo passes without the patch; with it the suite passes and the demo fails
-# 2. applies the patch to /repo, runs the quick checks, reverts
+# Works in a scratch worktree of /repo (VERIF_REPO), so that /repo itself and anything running against it stay untouched:
+# 1. demo passes without the patch; with it the suite passes and the demo fails
+# 2. the quick checks are run against the patched scratch tree
 set -u
 D=$1; RX=$2; shift 2
 export GOFLAGS=-mod=mod GOPROXY=off GOSUMDB=off
@@ -12,12 +13,10 @@ cp $D/demo_test.go $WT/zz_demo_test.go
 ( cd $WT && git apply $D/patch.diff ) || { echo "patch does not apply"; git -C /repo worktree remove --force $WT; exit 2; }
 ( cd $WT && mv zz_demo_test.go /tmp/zz_demo_test.go.$$ && timeout 600 go test -count=1 ./... >/tmp/seedchk-s.log 2>&1 ); S=$?
 ( cd $WT && mv /tmp/zz_demo_test.go.$$ zz_demo_test.go && timeout 300 go test -count=1 -run "$RX" . >/tmp/seedchk-b.log 2>&1 ); B=$?
-git -C /repo worktree remove --force $WT
+rm -f $WT/zz_demo_test.go
 echo "demo-without-patch rc=$A (want 0)  suite-with-patch rc=$S (want 0)  demo-with-patch rc=$B (want !=0)"
-git -C /repo apply $D/patch.diff || exit 2
 cd /verif
 for p in "$@"; do
-  timeout 1800 ./check $p quick > /tmp/seedchk-$p.log 2>&1; echo "check $p rc=$?  $(grep -c VIOLATION /tmp/seedchk-$p.log) violations: $(grep VIOLATION /tmp/seedchk-$p.log | head -2 | cut -c1-250)"
+  VERIF_REPO=$WT timeout 1800 ./check $p quick > /tmp/seedchk-$p.log 2>&1; echo "check $p rc=$?  $(grep -c VIOLATION /tmp/seedchk-$p.log) violations: $(grep VIOLATION /tmp/seedchk-$p.log | head -2 | cut -c1-250)"
 done
-git -C /repo checkout -- .
-git -C /repo status --short | head
+git -C /repo worktree remove --force $WT
